@@ -15,3 +15,187 @@ Proof. vm_compute. repeat split. Qed.
 (* modulo as the code computes it (every step rounded) is not a - b*floor(a/b): modulo(1E+40, 3) *)
 Lemma mod_steps_refuted : exists a b, mod_known a b = true /\ f_mod a b = Some (mkdec false 1 0) /\ f_mod_steps a b = Some (mkdec false 1 6).
 Proof. exists (mkdec false 1 40), (mkdec false 3 0). vm_compute. repeat split. Qed.
+
+From DV Require Import Base.DecFacts.
+
+(* ---------------------------------------------------------------- one correct rounding: nearest, ties to even *)
+(* q' = round_half_even m drop is a nearest multiple: |q' * 10^drop - m| <= 10^drop / 2, and on an exact tie q' is even *)
+Lemma round_half_even_spec : forall m drop, (0 < drop)%N ->
+  let p := (10 ^ drop)%N in let q := round_half_even m drop in
+  2 * Z.abs (Z.of_N q * Z.of_N p - Z.of_N m) <= Z.of_N p /\
+  (2 * Z.abs (Z.of_N q * Z.of_N p - Z.of_N m) = Z.of_N p -> N.even q = true).
+Proof.
+  intros m drop Hd. cbv zeta. unfold round_half_even.
+  destruct (drop =? 0)%N eqn:E0; [apply N.eqb_eq in E0; lia|].
+  assert (Hp : (10 ^ drop = 2 * (5 * 10 ^ (drop - 1)))%N).
+  { replace drop with (N.succ (drop - 1)) at 1 by lia. rewrite N.pow_succ_r'. lia. }
+  assert (Hpos : (0 < 5 * 10 ^ (drop - 1))%N).
+  { assert (10 ^ (drop - 1) <> 0)%N by (apply N.pow_nonzero; lia). lia. }
+  set (h := (5 * 10 ^ (drop - 1))%N) in *. rewrite Hp. clearbody h.
+  pose proof (N.div_mod m (2 * h) ltac:(lia)) as DM. pose proof (N.mod_lt m (2 * h) ltac:(lia)) as ML.
+  set (q := (m / (2 * h))%N) in *. set (r := (m mod (2 * h))%N) in *. clearbody q r.
+  destruct ((h <? r)%N || (r =? h)%N && N.odd q) eqn:C.
+  - apply orb_true_iff in C. destruct C as [C|C].
+    + apply N.ltb_lt in C. split; [lia|]. intros T. exfalso. lia.
+    + apply andb_true_iff in C. destruct C as [C1 C2]. apply N.eqb_eq in C1. split; [lia|]. intros _.
+      rewrite N.add_1_r, N.even_succ. exact C2.
+  - apply orb_false_iff in C. destruct C as [C1 C2]. apply N.ltb_ge in C1. split; [lia|]. intros T.
+    assert (r = h) by lia. apply N.eqb_eq in H. rewrite H in C2. cbn in C2. rewrite <- N.negb_odd, C2. reflexivity.
+Qed.
+
+Lemma round_half_even_zero_drop : forall m, round_half_even m 0 = m.
+Proof. reflexivity. Qed.
+
+(* a value that is representable is returned unchanged: rounding is the identity on decimal128 data
+   (in particular on numeric literals of up to 34 significant digits, C07) *)
+Theorem round34_exact : forall s m e, (m < 10 ^ PREC)%N -> ETINY <= e <= ETOP ->
+  round34 s m e = Some (mkdec s m e).
+Proof.
+  intros s m e Hm He. unfold round34. destruct (m =? 0)%N eqn:E0.
+  - apply N.eqb_eq in E0. subst m. unfold clamp_exp. rewrite Z.min_r, Z.max_r by lia. reflexivity.
+  - apply N.eqb_neq in E0. assert (Hp : (0 < m)%N) by lia.
+    pose proof (ndigits_le m PREC Hp Hm) as Hnd. destruct (ndigits_spec m Hp) as [_ Hnd1].
+    assert (Ht : target_exp m e = e).
+    { unfold target_exp. unfold PREC in *. lia. }
+    rewrite Ht, Z.sub_diag. cbn [Z.to_N]. rewrite round_half_even_zero_drop.
+    destruct (m =? 10 ^ PREC)%N eqn:E1; [apply N.eqb_eq in E1; lia|].
+    assert (EMAX <? e + Z.of_N (ndigits m) - 1 = false) as -> by (apply Z.ltb_ge; unfold EMAX, ETOP, PREC in *; lia).
+    assert (ETOP <? e = false) as -> by (apply Z.ltb_ge; lia). reflexivity.
+Qed.
+
+(* the shape of the model: exact integer result first, one rounding afterwards *)
+Lemma dadd_exact_then_round : forall a b,
+  dadd a b = round_Z (scaled a (emin2 a b) + scaled b (emin2 a b)) (emin2 a b) (neg a && neg b).
+Proof. reflexivity. Qed.
+Lemma dmul_exact_then_round : forall a b,
+  dmul a b = round34 (xorb (neg a) (neg b)) (coef a * coef b) (expo a + expo b).
+Proof. reflexivity. Qed.
+
+(* exact sums and products of representable data that are themselves representable are returned exactly *)
+Theorem dmul_exact : forall a b, (coef a * coef b < 10 ^ PREC)%N -> ETINY <= expo a + expo b <= ETOP ->
+  dmul a b = Some (mkdec (xorb (neg a) (neg b)) (coef a * coef b) (expo a + expo b)).
+Proof. intros a b H1 H2. unfold dmul. apply round34_exact; assumption. Qed.
+
+Theorem dadd_exact : forall a b, Z.abs (scaled a (emin2 a b) + scaled b (emin2 a b)) < 10 ^ 34 -> ETINY <= emin2 a b <= ETOP ->
+  exists r, dadd a b = Some r /\ expo r = emin2 a b /\ sval r = scaled a (emin2 a b) + scaled b (emin2 a b).
+Proof.
+  intros a b H1 H2. unfold dadd, exact_add, round_Z.
+  set (z := scaled a (emin2 a b) + scaled b (emin2 a b)) in *.
+  rewrite round34_exact; [| | exact H2].
+  - eexists. split; [reflexivity|]. split; [reflexivity|]. unfold sval. cbn [neg coef].
+    destruct (z =? 0) eqn:Ez.
+    + apply Z.eqb_eq in Ez. rewrite Ez. cbn. destruct (neg a && neg b); reflexivity.
+    + destruct (z <? 0) eqn:Ez2; [apply Z.ltb_lt in Ez2 | apply Z.ltb_ge in Ez2]; rewrite N2Z.inj_abs_N; lia.
+  - change (10 ^ PREC)%N with (Z.to_N (10 ^ 34)). apply N2Z.inj_lt. rewrite N2Z.inj_abs_N, Z2N.id by lia. exact H1.
+Qed.
+
+(* ---------------------------------------------------------------- integral values *)
+Lemma zfloor_spec : forall d, expo d < 0 ->
+  zfloor d * 10 ^ (- expo d) <= sval d < (zfloor d + 1) * 10 ^ (- expo d).
+Proof.
+  intros d He. unfold zfloor. assert (0 <=? expo d = false) as -> by (apply Z.leb_gt; exact He).
+  assert (Hp : 0 < 10 ^ (- expo d)) by (apply Z.pow_pos_nonneg; lia).
+  pose proof (Z.div_mod (sval d) (10 ^ (- expo d)) ltac:(lia)). pose proof (Z.mod_pos_bound (sval d) (10 ^ (- expo d)) Hp). nia.
+Qed.
+
+Lemma zceil_spec : forall d, expo d < 0 ->
+  (zceil d - 1) * 10 ^ (- expo d) < sval d <= zceil d * 10 ^ (- expo d).
+Proof.
+  intros d He. unfold zceil. assert (0 <=? expo d = false) as -> by (apply Z.leb_gt; exact He).
+  assert (Hp : 0 < 10 ^ (- expo d)) by (apply Z.pow_pos_nonneg; lia).
+  pose proof (Z.div_mod (- sval d) (10 ^ (- expo d)) ltac:(lia)). pose proof (Z.mod_pos_bound (- sval d) (10 ^ (- expo d)) Hp). nia.
+Qed.
+
+Lemma zfloor_integer : forall d, 0 <= expo d -> zfloor d = sval d * 10 ^ expo d /\ zceil d = sval d * 10 ^ expo d.
+Proof. intros d He. unfold zfloor, zceil. assert (0 <=? expo d = true) as -> by (apply Z.leb_le; exact He). split; reflexivity. Qed.
+
+(* ---------------------------------------------------------------- modulo: the exact remainder has the sign of the divisor *)
+Lemma dmod_exact_remainder : forall a b, coef b <> 0%N ->
+  let e := emin2 a b in let r := scaled a e - scaled b e * floor_div a b in
+  r = (scaled a e) mod (scaled b e) /\ ((0 <= r < scaled b e) \/ (scaled b e < r <= 0)).
+Proof.
+  intros a b Hb. cbv zeta. unfold floor_div.
+  assert (Hs : scaled b (emin2 a b) <> 0).
+  { unfold scaled, sval. assert (0 < 10 ^ (expo b - emin2 a b)) by (apply Z.pow_pos_nonneg; unfold emin2; lia).
+    destruct (neg b); nia. }
+  rewrite <- Z.mod_eq by exact Hs. split; [reflexivity|].
+  destruct (Z.lt_trichotomy (scaled b (emin2 a b)) 0) as [L|[L|L]]; [right | contradiction | left].
+  - apply Z.mod_neg_bound. exact L.
+  - apply Z.mod_pos_bound. exact L.
+Qed.
+
+(* undefined results are null *)
+Lemma div_by_zero_null : forall a b, coef b = 0%N -> ddiv a b = None /\ dmod a b = None.
+Proof. intros a b H. unfold ddiv, dmod, dis_zero. rewrite H. split; reflexivity. Qed.
+Lemma sqrt_negative_null : forall a, coef a <> 0%N -> neg a = true -> dsqrt a = None.
+Proof. intros a H1 H2. unfold dsqrt, dis_zero. apply N.eqb_neq in H1. rewrite H1, H2. reflexivity. Qed.
+
+(* ---------------------------------------------------------------- HEADLINE: round34 returns a nearest decimal128, ties to even *)
+Lemma target_exp_ge : forall m e, e <= target_exp m e /\ ETINY <= target_exp m e.
+Proof. intros. unfold target_exp. lia. Qed.
+
+Lemma pow10_split : forall a b, 0 <= a -> 0 <= b -> 10 ^ (a + b) = 10 ^ a * 10 ^ b.
+Proof. intros. apply Z.pow_add_r; assumption. Qed.
+
+(* the value of the result, written at the common base exponent b = min e ETINY, equals the rounded coefficient c1 at the target exponent *)
+Lemma some_inj : forall (A : Type) (x y : A), Some x = Some y -> x = y.
+Proof. intros A x y H. injection H as H. exact H. Qed.
+
+Lemma round34_value : forall s m e d, (0 < m)%N -> round34 s m e = Some d ->
+  let e1 := target_exp m e in let c1 := round_half_even m (Z.to_N (e1 - e)) in let b := Z.min e ETINY in
+  neg d = s /\ ETINY <= expo d <= ETOP /\
+  Z.of_N (coef d) * 10 ^ (expo d - b) = Z.of_N c1 * 10 ^ (e1 - b).
+Proof.
+  intros s m e d Hm H. cbv zeta. unfold round34 in H.
+  assert (m =? 0 = false)%N as E0 by (apply N.eqb_neq; lia). rewrite E0 in H.
+  destruct (target_exp_ge m e) as [T1 T2].
+  set (e1 := target_exp m e) in *. set (c1 := round_half_even m (Z.to_N (e1 - e))) in *. set (b := Z.min e ETINY).
+  assert (Hb : b <= e /\ b <= ETINY) by (unfold b; lia).
+  destruct (c1 =? 10 ^ PREC)%N eqn:Ec.
+  - apply N.eqb_eq in Ec.
+    destruct (EMAX <? e1 + 1 + Z.of_N (ndigits (10 ^ (PREC - 1))) - 1) eqn:Eo; [discriminate H|]. clear Eo.
+    destruct (ETOP <? e1 + 1) eqn:Et.
+    + apply Z.ltb_lt in Et. apply some_inj in H. subst d. cbn [neg coef expo]. split; [reflexivity|]. split; [unfold ETINY, ETOP; lia|].
+      rewrite Ec, N2Z.inj_mul, !N2Z.inj_pow, Z2N.id by lia. change (Z.of_N 10) with 10. change (Z.of_N (PREC - 1)) with 33. change (Z.of_N PREC) with 34.
+      replace (e1 - b) with ((e1 + 1 - ETOP) + (ETOP - b) - 1) by lia.
+      rewrite <- Z.mul_assoc, <- pow10_split by (unfold ETINY, ETOP in *; lia).
+      rewrite <- !pow10_split by (unfold ETINY, ETOP in *; lia). f_equal. lia.
+    + apply Z.ltb_ge in Et. apply some_inj in H. subst d. cbn [neg coef expo]. split; [reflexivity|]. split; [lia|].
+      rewrite Ec, !N2Z.inj_pow. change (Z.of_N 10) with 10. change (Z.of_N (PREC - 1)) with 33. change (Z.of_N PREC) with 34.
+      rewrite <- !pow10_split by (unfold ETINY in *; lia). f_equal. lia.
+  - destruct (EMAX <? e1 + Z.of_N (ndigits c1) - 1) eqn:Eo; [discriminate H|]. clear Eo.
+    destruct (ETOP <? e1) eqn:Et.
+    + apply Z.ltb_lt in Et. apply some_inj in H. subst d. cbn [neg coef expo]. split; [reflexivity|]. split; [unfold ETINY, ETOP; lia|].
+      rewrite N2Z.inj_mul, N2Z.inj_pow, Z2N.id by lia. change (Z.of_N 10) with 10.
+      rewrite <- Z.mul_assoc, <- pow10_split by (unfold ETINY, ETOP in *; lia). f_equal. f_equal. lia.
+    + apply Z.ltb_ge in Et. apply some_inj in H. subst d. cbn [neg coef expo]. split; [reflexivity|]. split; [lia|]. reflexivity.
+Qed.
+
+Theorem round34_nearest_even : forall s m e d, (0 < m)%N -> round34 s m e = Some d ->
+  let e1 := target_exp m e in let b := Z.min e ETINY in
+  neg d = s /\ ETINY <= expo d <= ETOP /\
+  2 * Z.abs (Z.of_N (coef d) * 10 ^ (expo d - b) - Z.of_N m * 10 ^ (e - b)) <= 10 ^ (e1 - b) /\
+  (e < e1 -> 2 * Z.abs (Z.of_N (coef d) * 10 ^ (expo d - b) - Z.of_N m * 10 ^ (e - b)) = 10 ^ (e1 - b) ->
+   N.even (round_half_even m (Z.to_N (e1 - e))) = true) /\
+  (e1 = e -> Z.of_N (coef d) * 10 ^ (expo d - b) = Z.of_N m * 10 ^ (e - b)).
+Proof.
+  intros s m e d Hm H. destruct (round34_value s m e d Hm H) as (V1 & V2 & V3). cbv zeta in *.
+  destruct (target_exp_ge m e) as [T1 T2].
+  set (e1 := target_exp m e) in *. set (b := Z.min e ETINY) in *.
+  assert (Hb : b <= e /\ b <= ETINY) by (unfold b; lia).
+  split; [exact V1|]. split; [exact V2|]. rewrite V3.
+  assert (Hsplit : 10 ^ (e1 - b) = 10 ^ (e1 - e) * 10 ^ (e - b)).
+  { rewrite <- pow10_split by lia. f_equal. lia. }
+  assert (Hq : 0 < 10 ^ (e - b)) by (apply Z.pow_pos_nonneg; lia).
+  destruct (Z.eq_dec e1 e) as [Eq|Ne].
+  - rewrite Eq, Z.sub_diag. cbn [Z.to_N]. rewrite round_half_even_zero_drop.
+    rewrite Z.sub_diag, Z.abs_0. split; [lia|]. split; [lia|]. intros _. reflexivity.
+  - assert (Hd : (0 < Z.to_N (e1 - e))%N) by lia.
+    destruct (round_half_even_spec m (Z.to_N (e1 - e)) Hd) as [R1 R2]. cbv zeta in R1, R2.
+    rewrite N2Z.inj_pow, Z2N.id in R1, R2 by lia. change (Z.of_N 10) with 10 in R1, R2.
+    set (c1 := Z.of_N (round_half_even m (Z.to_N (e1 - e)))) in *.
+    assert (Hfac : c1 * 10 ^ (e1 - b) - Z.of_N m * 10 ^ (e - b) = (c1 * 10 ^ (e1 - e) - Z.of_N m) * 10 ^ (e - b)) by (rewrite Hsplit; ring).
+    rewrite Hfac, Z.abs_mul, (Z.abs_eq (10 ^ (e - b))) by lia. rewrite Hsplit.
+    split; [nia|]. split; [|intros; lia].
+    intros _ T. apply R2. nia.
+Qed.
